@@ -41,6 +41,6 @@ SeqOfVals(c) == [i \in 1..3 |-> Val(c, i)]
 Case == [op |-> st.op, L |-> st.L, hidden |-> Lay.h, t |-> Lay.t, u |-> Lay.u, m |-> st.m, m2 |-> st.m2,
          vals1 |-> SeqOfVals(1), vals2 |-> SeqOfVals(2),
          S |-> st.S, S2 |-> st.S2, S1b |-> IF st.two = 0 THEN st.S ELSE S1b, two |-> st.two,
-         host |-> st.host, cs |-> st.cs, cs2 |-> st.cs2, W |-> W, LmT |-> LmT, expect |-> FinalVerdict]
+         host |-> st.host, re |-> st.re, cs |-> st.cs, cs2 |-> st.cs2, W |-> W, LmT |-> LmT, expect |-> FinalVerdict]
 EmitCase == (st.ph = "att" /\ st.step = 1) => PrintT(<<"CASE", ToJson(Case)>>)
 =============================================================================
